@@ -88,13 +88,17 @@ uint64_t do_op(const void *pool_, void *priv_, const BOp &op) {
         case 3: { int c1 = s.compare(t, cs), c2 = s.compare_n(t, op.c % 20, cs), c3 = s.compare(t.c_str()); h.u8(c1 < 0 ? 1 : c1 > 0 ? 2 : 0); h.u8(c2 < 0 ? 1 : c2 > 0 ? 2 : 0); h.u8(c3 < 0 ? 1 : c3 > 0 ? 2 : 0); h.u8(s.compare_i(t) == 0); break; }
         case 4: { h.u8(s == t); h.u8(s != t); h.u8(s < t); h.u64(ST::hash()(s)); h.u64(ST::hash_i()(s)); h.u64(std::hash<ST::string>()(t)); h.u8(ST::less_i()(s, t)); h.u8(ST::equal_i()(s, t)); break; }
         case 5: { hs(h, s.substr((ST_ssize_t)(op.c % (s.size() + 1)), op.c % 7)); hs(h, s.left(op.c % 20)); hs(h, s.right(op.c % 9)); hs(h, s.substr(0)); hs(h, s.substr(-(ST_ssize_t)(op.c % 5))); break; }
-        case 6: { hs(h, s.trim()); hs(h, s.trim_left(" \tabc")); hs(h, s.trim_right("xyz \n")); break; }
+        case 6: { static const char *const SETS[] = {" \tabc", "xyz \n", " \t\r\n.,;:!?()[]{}'\"-", "aeiouAEIOU \t", "0123456789+-.eE", " ", "abcdefghijklmnopqrstuvwxyz"};      // short and long sets
+                  hs(h, s.trim()); hs(h, s.trim_left(SETS[op.c % 7])); hs(h, s.trim_right(SETS[(op.c >> 3) % 7])); hs(h, s.trim(SETS[(op.c >> 6) % 7])); break; }
         case 7: { ST::string n = slice(s, op.c); hs(h, s.before_first(n, cs)); hs(h, s.after_first(n.c_str(), cs)); hs(h, s.before_last(' ')); hs(h, s.after_last(n, cs)); break; }
         case 8: { hs(h, s.to_upper()); hs(h, s.to_lower()); break; }
         case 9: { ST::string n = slice(s, op.c); const ST::string &rt = (s.size() > 200 && t.size() > 200) ? P.strs[1] : t;      // (long x long would be quadratic: megabytes of output)
-                  hs(h, s.replace(n, rt, cs)); hs(h, s.replace(n.c_str(), "<>", cs)); hs(h, s.replace(t, n)); break; }
+                  hs(h, s.replace(n, rt, cs)); hs(h, s.replace(n.c_str(), "<>", cs)); hs(h, s.replace(t, n));
+                  { static const char *const COMMON[] = {"e", " ", "a", "t"}; hs(h, s.replace(COMMON[op.c % 4], (op.c & 4) ? "" : "<+>", cs)); }      // many matches, length changes
+                  break; }
         case 10: { ST::string n = slice(s, op.c); auto v = s.split(n, op.c % 5 ? ST_AUTO_SIZE : 2, cs); h.u64(v.size()); for (auto &x : v) hs(h, x); auto w = s.split(' '); h.u64(w.size()); for (auto &x : w) hs(h, x); auto u = s.split(", "); h.u64(u.size()); break; }
-        case 11: { auto v = s.tokenize(); h.u64(v.size()); for (auto &x : v) hs(h, x); auto w = s.tokenize(",;e"); h.u64(w.size()); for (auto &x : w) hs(h, x); break; }
+        case 11: { static const char *const DELIMS[] = {",;e", " \t\r\n.,;:!?()[]{}", "aeiou", " ,", "0123456789abcdef"};
+                   auto v = s.tokenize(); h.u64(v.size()); for (auto &x : v) hs(h, x); auto w = s.tokenize(DELIMS[op.c % 5]); h.u64(w.size()); for (auto &x : w) hs(h, x); break; }
         case 12: hb(h, s.to_utf16()); break;
         case 13: hb(h, s.to_utf32()); break;
         case 14: hb(h, s.to_wchar()); break;
@@ -104,7 +108,13 @@ uint64_t do_op(const void *pool_, void *priv_, const BOp &op) {
         case 18: { const ST::string &n = P.nums[op.a % P.nums.size()]; ST::conversion_result r; h.u64((uint64_t)n.to_int()); h.u64((uint64_t)n.to_long_long(r, 0)); h.u8(r.ok()); h.u8(r.full_match()); h.u64((uint64_t)n.to_uint(16)); double d = n.to_double(r); h.bytes(&d, sizeof d); h.u8(n.to_bool()); float f = n.to_float(); h.bytes(&f, sizeof f); break; }
         case 19: { hs(h, s + t); hs(h, s + "lit"); hs(h, "lit" + t); hs(h, s + L"wé"); hs(h, u"€" + t); hs(h, s + U"\U0001F600"); break; }
         case 20: { hs(h, s + 'c'); hs(h, s + char32_t(0x20AC)); hs(h, char16_t(0xE9) + t); hs(h, L'w' + t); break; }
-        case 21: { long long v = (long long)op.c * 7919 - 100000; hs(h, ST::format("{} {x} {#X} {>12} {<8_*}| {+} {o} {b}", v, (unsigned)op.c, op.c, (short)op.b, (int)op.a, -(int)op.c % 9999, (unsigned char)op.c, (unsigned short)(op.c & 0xFF))); hs(h, ST::string::from_int((int)v, 10 + op.c % 27)); break; }
+        case 21: { long long v = (long long)op.c * 7919 - 100000;
+                   {   // a field built from the operands: every combination of flags, digit class, sign of the value and width gets its turn
+                       static const char *const CLS[] = {"", "x", "X", "o", "b", "d"}; static const char *const FLG[] = {"", "#", "+", "+#", "0", "#0"};
+                       std::string f = std::string("<{") + FLG[(op.c >> 2) % 6] + ((op.c >> 9) % 3 == 0 ? "12" : "") + CLS[(op.c >> 5) % 6] + "}>";
+                       long long sv = (op.c & 1) ? -(long long)(op.c >> 3) - 1 : (long long)(op.c >> 3);
+                       switch (op.c % 4) { case 0: hs(h, ST::format(f.c_str(), sv)); break; case 1: hs(h, ST::format(f.c_str(), (int)sv)); break; case 2: hs(h, ST::format(f.c_str(), (short)sv)); break; default: hs(h, ST::format(f.c_str(), (long)sv)); break; }
+                   } hs(h, ST::format("{} {x} {#X} {>12} {<8_*}| {+} {o} {b}", v, (unsigned)op.c, op.c, (short)op.b, (int)op.a, -(int)op.c % 9999, (unsigned char)op.c, (unsigned short)(op.c & 0xFF))); hs(h, ST::string::from_int((int)v, 10 + op.c % 27)); break; }
         case 22: { double d = (double)(op.c % 100000) / 7.0 - 3000.0; unsigned prec = op.c % 9;
                    switch (prec) {       // different threads use different precisions
                    case 0: hs(h, ST::format("v={}", d)); break; case 1: hs(h, ST::format("v={.1f}", d)); break; case 2: hs(h, ST::format("v={.2e}", d)); break; case 3: hs(h, ST::format("v={.3}", d)); break;
